@@ -543,7 +543,7 @@ def rand_form(rng):
 
 def leg_b(ctx, H):
     rng = ctx.rng
-    n = ctx.pick(2500, 120000)
+    n = ctx.pick(2500, 200000)
     traces, cases, seen = [], [], set()
     for i in range(n):
         stack = ('wsgi', 'asgi')[i % 2]
@@ -552,7 +552,7 @@ def leg_b(ctx, H):
         doc = rand_form(rng) if handler == 'form' else rand_doc(rng, rng.randint(0, 4))
         doc = [None] if doc is None else doc
         sbody, sct, err = H.render(('wsgi', 'asgi')[rng.randrange(2)], rct, doc)
-        case = {'leg': 'B', 'stack': stack, 'ctype': ctype, 'doc': doc}
+        case = {'leg': 'B', 'stack': stack, 'ctype': ctype, 'handler': handler, 'doc': doc}
         if err:
             ctx.violation('P:serialize', case, err)
             continue
@@ -672,7 +672,7 @@ def replay(ctx, case):
             print(e)
         print('wire', wire)
         bk = case.get('body_kind', 'valid')
-        handler = 'form' if 'form' in (ct or '') else 'json'
+        handler = case.get('handler') or ('form' if 'form' in (ct or '') else 'json')
         t = {'stack': stack, 'handler': handler, 'body': bk, 'wire': wire if wire != 200 else -1,
              'ev': [{k: e[k] for k in ('op', 'd', 'out', 'ek', 'status', 'same', 'eq', 'errsame', 'touched', 'nparse')} for e in evs]}
         v = ctx.judge('MediaCacheTrace', [t], workers=1)
